@@ -477,7 +477,7 @@ func c13Gov(h *History, g *G) []EnvAction {
 var ProfileC13 = &Profile{
 	MultiMsg: true,
 	VaryFees: true, // "gas fees in any denom"
-	ID:       "C13", Name: "rewards", MinBlocks: 8, MaxBlocks: 40, MaxTxs: 5, Spec: specDefault, Check: CheckC13, FinalOps: c13Drain, Final: c13Final, PreBlock: c13Gov,
+	ID:       "C13", Name: "rewards", MinBlocks: 8, MaxBlocks: 40, MaxTxs: 5, Spec: withPoolPricedElys(specDefault), Check: CheckC13, FinalOps: c13Drain, Final: c13Final, PreBlock: c13Gov,
 	Weights: map[string]int{"amm.swap_in": 14, "amm.swap_out": 8, "amm.swap_in_2hop": 3, "amm.join": 8, "amm.exit": 6, "stablestake.bond": 5, "stablestake.unbond": 3,
 		"perpetual.open": 6, "perpetual.close": 4, "leveragelp.open": 4, "leveragelp.close": 3, "leveragelp.claim_rewards": 2,
 		"masterchef.claim": 8, "masterchef.add_external_incentive": 5, "oracle.feed_price": 3},
@@ -500,7 +500,7 @@ func allWeights() map[string]int {
 
 var ProfileC15 = &Profile{
 	MultiMsg: true,
-	ID:       "C15", Name: "everything", MinBlocks: 8, MaxBlocks: 50, MaxTxs: 6, Spec: withBurner(specDefault), Check: CheckC15, Weights: withWeights(allWeights(), map[string]int{"bank.send_to_burn": 5}),
+	ID:       "C15", Name: "everything", MinBlocks: 8, MaxBlocks: 50, MaxTxs: 6, Spec: withPoolPricedElys(withModestUser(withBurner(specDefault))), Check: CheckC15, Weights: withWeights(allWeights(), map[string]int{"bank.send_to_burn": 5}),
 	Rule: "history with >=30 successful txs from >=5 modules and >=1 block gap >= 1 day (epoch boundary)",
 	NonTrivial: func(h *History) bool {
 		mods := map[string]bool{}
@@ -603,7 +603,7 @@ func specFaulty(t *rapid.T) WorldSpec {
 
 var ProfileC18 = &Profile{
 	MultiMsg: true,
-	ID:       "C18", Name: "faults", MinBlocks: 8, MaxBlocks: 50, MaxTxs: 6, Spec: withBurner(specFaulty), Weights: withWeights(allWeights(), map[string]int{"oracle.refresh": 12, "oracle.feed_price": 8}),
+	ID:       "C18", Name: "faults", MinBlocks: 8, MaxBlocks: 50, MaxTxs: 6, Spec: withPoolPricedElys(withModestUser(withBurner(specFaulty))), Weights: withWeights(allWeights(), map[string]int{"oracle.refresh": 12, "oracle.feed_price": 8}),
 	BlockFailureIsViolation: true, VaryFees: true,
 	Check: CheckC18,
 	Gaps:  []time.Duration{time.Second, 5 * time.Second, 6 * time.Second, 5 * time.Second, time.Hour + time.Second, 24*time.Hour + time.Second, 8 * 24 * time.Hour, 40 * 24 * time.Hour},
